@@ -74,6 +74,10 @@ func (c12) Gen(r *sim.Rand, tier string, run uint64) *sim.Scenario {
 		for i := 0; i < n; i++ {
 			if r.Chance(1, 3) {
 				ops = append(ops, sim.Op{K: "reset"})
+			} else if r.Chance(1, 4) {
+				// an interrupt request between two instructions (accepted only while I = 0;
+				// CLI first makes that likely); N[0] = 1 requests an NMI instead
+				ops = append(ops, sim.Op{K: "irq", N: []int64{int64(r.Intn(3) / 2)}})
 			} else {
 				ops = append(ops, sim.Op{K: "step", N: []int64{int64(r.Range(1, 80))}})
 			}
@@ -457,7 +461,13 @@ func c12bare(sc *sim.Scenario, env *sim.Env) *sim.Violation {
 	stepNo := 0
 	var readsAtStepStart uint64
 	cbAddr := uint32(pc)
-	if sc.C("kind") == 2 {
+	hasIRQ := false
+	for _, op := range sc.Ops {
+		if op.K == "irq" {
+			hasIRQ = true
+		}
+	}
+	if sc.C("kind") == 2 && !hasIRQ {
 		cpu.SetOnPC(map[uint32]func(){cbAddr: func() {
 			env.Yield("cb.pc")
 			pcEvents = append(pcEvents, pcev{stepNo, mem.Reads - readsAtStepStart})
@@ -479,6 +489,18 @@ func c12bare(sc *sim.Scenario, env *sim.Env) *sim.Violation {
 			if cpu.Regs().Stopped {
 				return &sim.Violation{Oracle: "stop_flag_after_reset", Step: i, Msg: "Stopped still set after Reset"}
 			}
+		case "irq":
+			// the property says the stop condition holds "until the CPU is reset": an interrupt
+			// request is one of the things that must not end it
+			if op.Arg(0) == 1 {
+				r := cpu.Regs()
+				r.Interrupt = 2 // NMI, through the exported field (there is no TriggerNMI)
+				cpu.SetRegs(r)
+			} else {
+				sim.RecoverLib(func() { cpu.TriggerIRQ() })
+			}
+			st.Fault("interrupt_request")
+			env.FaultYield("op")
 		case "step":
 			n := int(op.Arg(0))
 			if n > 200 {
@@ -486,9 +508,25 @@ func c12bare(sc *sim.Scenario, env *sim.Env) *sim.Violation {
 			}
 			for k := 0; k < n; k++ {
 				r := cpu.Regs()
-				opc := mem.Peek(r.PCL())
-				opd := mem.Peek(uint32(r.RK)<<16 | uint32(r.PC+1))
-				if r.PCL() == cbAddr {
+				fetch := r.PCL()
+				switch r.Interrupt {
+				case 2: // NMI: vector $00:FFEA, program bank unchanged by this implementation
+					fetch = uint32(r.RK)<<16 | uint32(mem.Peek(0xFFEA)) | uint32(mem.Peek(0xFFEB))<<8
+				case 3: // IRQ: vector $00:FFEE
+					fetch = uint32(mem.Peek(0xFFEE)) | uint32(mem.Peek(0xFFEF))<<8
+				}
+				if r.Interrupt == 2 || r.Interrupt == 3 {
+					st.Probe("interrupt_taken")
+					// the interrupt sequence pushes 3-4 bytes below SP in bank 0; if they land on
+					// the handler's first bytes the opcode cannot be predicted from outside
+					if fetch>>16 == 0 && uint16(fetch)+1 >= r.SP-4 && uint16(fetch) <= r.SP+1 {
+						st.Abort("interrupt_stack_overlaps_handler")
+						return nil
+					}
+				}
+				opc := mem.Peek(fetch)
+				opd := mem.Peek(fetch&0xFF0000 | uint32(uint16(fetch)+1))
+				if r.PCL() == cbAddr && !hasIRQ {
 					visits++
 				}
 				stepNo++
@@ -537,7 +575,7 @@ func c12bare(sc *sim.Scenario, env *sim.Env) *sim.Violation {
 		return &sim.Violation{Oracle: "onwdm", Step: -1, Msg: fmt.Sprintf("%s: OnWDM received % x; WDM operands executed % x", cpu.Kind(), wdmArgs, wdmWant)}
 	}
 	st.ProbeIf(len(wdmWant) > 0 && sc.C("wdm") != 0, "onwdm_fired")
-	if sc.C("kind") == 2 {
+	if sc.C("kind") == 2 && !hasIRQ {
 		if len(pcEvents) != visits {
 			return &sim.Violation{Oracle: "onpc_count", Step: -1, Msg: fmt.Sprintf("callback at %06x ran %d times; %d steps started there", cbAddr, len(pcEvents), visits)}
 		}
